@@ -236,15 +236,18 @@ func (boltIt *boltIterator) Seek(id []byte) error {
 func (boltIt *boltIterator) SeekReverse(id []byte) error {
 	boltIt.forward = false
 	k, v := boltIt.c.Seek(id)
+	if k == nil {
+		//every key is below id: the largest key <= id is the last one
+		k, v = boltIt.c.Last()
+	} else if bytes.Compare(id, k) < 0 {
+		//seek lands at value equal or above id. Move once to make sure
+		//key is less then id
+		k, v = boltIt.c.Prev()
+	}
 	if k == nil || v == nil {
 		boltIt.key = nil
 		boltIt.value = nil
 		return fmt.Errorf("Seek error")
-	}
-	//seek lands at value equal or above id. Move once to make sure
-	//key is less then id
-	if bytes.Compare(id, k) < 0 {
-		k, v = boltIt.c.Prev()
 	}
 	boltIt.key = copyBytes(k)
 	boltIt.value = copyBytes(v)
